@@ -79,7 +79,15 @@ func prepareGenModule(res *result, atoms []idl.Atom, goOpts string) []*genUnit {
 		}
 		ddir := filepath.Join(out, "d_"+tag)
 		os.MkdirAll(ddir, 0o755)
-		mainSrc := fmt.Sprintf("package main\n\nimport (\n\tdrv \"gen/drv\"\n\tp \"gen/%s/mainpkg\"\n)\n\nfunc main() {\n\tdrv.Main(p.VerifTypes, p.VerifFuncs, func(n string, h drv.StubFunc) interface{} { return p.VerifNewStub(n, p.VerifStubFunc(h)) })\n}\n", tag)
+		// the registries of the included packages are merged in under "<package>." names
+		var imps, merges strings.Builder
+		for _, p := range pkgs {
+			if p.IsDir() && p.Name() != "mainpkg" {
+				fmt.Fprintf(&imps, "\tq_%s \"gen/%s/%s\"\n", p.Name(), tag, p.Name())
+				fmt.Fprintf(&merges, "\tfor k, v := range q_%s.VerifTypes {\n\t\ttypes[%q+k] = v\n\t}\n\tfor k, v := range q_%s.VerifFuncs {\n\t\tfuncs[%q+k] = v\n\t}\n", p.Name(), p.Name()+".", p.Name(), p.Name()+".")
+			}
+		}
+		mainSrc := fmt.Sprintf("package main\n\nimport (\n\t\"reflect\"\n\n\tdrv \"gen/drv\"\n\tp \"gen/%s/mainpkg\"\n%s)\n\nfunc main() {\n\ttypes := map[string]reflect.Type{}\n\tfuncs := map[string]interface{}{}\n\tfor k, v := range p.VerifTypes {\n\t\ttypes[k] = v\n\t}\n\tfor k, v := range p.VerifFuncs {\n\t\tfuncs[k] = v\n\t}\n%s\tdrv.Main(types, funcs, func(n string, h drv.StubFunc) interface{} { return p.VerifNewStub(n, p.VerifStubFunc(h)) })\n}\n", tag, imps.String(), merges.String())
 		os.WriteFile(filepath.Join(ddir, "main.go"), []byte(mainSrc), 0o644)
 		units = append(units, &genUnit{tag: tag, atom: a, dir: out, texts: texts})
 	}
